@@ -85,7 +85,7 @@ void reset_run(unsigned char fill, ReallocMode m) {
 }
 void begin_step() { g_req = 0; g_fail_k = 0; g_fail_fired = false; }
 void set_step_index(int idx) { g_step = idx; }
-void arm_fail(long k) { g_fail_k = k; g_fail_fired = false; }
+void arm_fail(long k) { g_fail_k = k; if (k > 0) g_fail_fired = false; }
 long requests_in_step() { return g_req; }
 bool fail_fired_in_step() { return g_fail_fired; }
 size_t live_blocks() { return g_live; }
